@@ -211,7 +211,7 @@ def gen_cases(rng, tier):
     def addt(**kw):
         kw["id"] = len(trees)
         kw["seed"] = rng.randrange(1, 2 ** 31)
-        if "group" not in kw and rng.random() < 0.5:
+        if "group" not in kw and "hvar" not in kw and rng.random() < 0.5:
             kw["hvar"] = "terms"
         trees.append(kw)
     # corpus (always first): a truncating tree run -- optimize_ttns leaves the optimised TTNS unnormalised (see notes/C08.md)
@@ -228,6 +228,18 @@ def gen_cases(rng, tier):
         for algo in ("davidson", "arpack", "direct"):
             addt(group=g, model_seed=ms, topo=topo, procedure=[[BIG_M, 0.3], [BIG_M, 0.1], [BIG_M, 0], [BIG_M, 0]], m_init=32, algo=algo, **kw)
             trees[-1]["seed"] = ms
+    # multi-component quantum numbers (two conserved species; (n_alpha, n_beta) of the ab-initio-like model; the input of fix a4feae3:
+    # an unlabelled oscillator at the root with a labelled spin below it, sector [1, 0]): every solver branch, full bond and truncating
+    for rep in range(mult):
+        for kw in (dict(kind="sho_spin", ns=1, nbas=3, sector=[1, 0], topo="linear"), dict(kind="sho_spin", ns=3, nbas=3, sector="rand", topo=rng.choice(["linear", "star", "binary"])),
+                   dict(kind="two_species", n=rng.choice([4, 5, 6]), sector="rand", topo=rng.choice(["linear", "binary", "star", "random"])),
+                   dict(kind="qc", norb=2, sector="rand", topo=rng.choice(["linear", "binary", "star"]))):
+            ms = rng.randrange(1, 2 ** 31)
+            for algo in ("davidson", "arpack", "direct"):
+                for full in (True, False):
+                    m = BIG_M if full else 2
+                    addt(hvar=None, model_seed=ms, procedure=[[m, 0.3], [m, 0.1], [m, 0], [m, 0]][: 4 if full else 3], m_init=16 if full else 4, algo=algo, **kw)
+                    trees[-1]["seed"] = ms
     # ... and truncating runs with every solver: the state left behind must be normalised, in the sector, variational
     for rep in range(2 * mult):
         for algo in ("davidson", "arpack", "direct"):
